@@ -15,6 +15,7 @@ TRUSTED_BASE = [
     "hand-written Lean model of slinky (lean/Slinkyv/*.lean), tied to /repo only by this run's correspondence check (byte equality of all outputs on every generated case)",
     "modelled by hand, validated differentially only: std::path (components/push/Display/extension), serde derive behaviour on the canonical value tree, HashMap iteration as an arbitrary order, {:X}/{:08X} formatting, ASCII case mapping",
     "Slinkyv.Ld (lean/Slinkyv/Ld.lean): a hand-written Lean semantics of GNU ld for the statements slinky writes; the image-level theorems are about this model of the linker; it is compared with GNU ld 2.40 (-m elf_i386) on every linked case of the run (all symbol values, section addresses/sizes, input-section addresses; evidence field ldsem_fidelity); outside it: segments without allocatable sections, orphans, output sections that end up empty without a symbol, PROVIDE semantics, 64-bit arithmetic, ld.lld",
+    "Slinkyv.Ld2 (lean/Slinkyv/Ld2.lean): placement order (`takes`, tied to Ld.exec by the theorem C11.exec_takes) and the two-step link of partial mode (`relink`, `twoStep`): that an output section of `ld -r` becomes one section of the partial object holding its contents in placement order, that empty ones are absent and that the final link moves such a section as one block is validated against real two-step links on every linked C11 case (twostep_model_fidelity), not proved",
     "not modelled: serde_yaml's scanner (bytes -> tree), clap, std::fs beyond create-parents/truncate/write",
     "the harness (harness/src/main.rs), ./check (python) and the Lean script parser are ordinary programs",
 ]
